@@ -1,4 +1,4 @@
-EXTRACT_DEPS = ['BotInst.vo']
+EXTRACT_DEPS = ['BotInst.vo', 'BotLine.vo']
 
 
 def _trivial(inp, out):
